@@ -31,7 +31,8 @@ def run_one(spec):
         ver = os.path.join(base, "verif")
         subprocess.run(["rsync", "-a", SNAP + "/", ver + "/"], check=True)
         ct = os.path.join(ver, "harness", "Cargo.toml")
-        open(ct, "w").write(open(ct).read().replace('path = "/repo"', 'path = "%s"' % repo))
+        toml = open(ct).read().replace('path = "/repo"', 'path = "%s"' % repo)
+        open(ct, "w").write(toml)
         env = dict(os.environ, RXV_REPO=repo)
         for c in checks:
             out = subprocess.run([os.path.join(ver, "check"), c, "--tier", "quick"], capture_output=True, text=True, cwd=ver, env=env).stdout
